@@ -71,6 +71,24 @@ def gen_package(r, purelib, name):
         w(os.path.join(root, sub, "__init__.py"), "\n".join(sub_imports) + "\n\n__all__ = %r\n" % sub_all)
         top_imports.append("from %s import %s" % (subpkg, ", ".join(sub_all)))
         top_all += sub_all
+    if r.random() < 0.45:
+        # a plain module next to the sub-packages: the package's __init__ then re-exports from a module *and* from
+        # sub-packages (the generated __init__ of such a tree is written twice: imports first, merged classes later)
+        m = r.choice(["core", "base", "common"])
+        syms, body = [], ["from typing import Optional, Literal, List", ""]
+        for _ in range(r.randint(1, 2)):
+            cname = r.choice(["Root", "Base", "Shared", "Common"]) + m.title()
+            if cname in syms:
+                continue
+            ir = irgen.rand_ir(r, nparams=r.randint(1, 3), type_kinds=("int", "float", "str", "bool", "optional"),
+                               default_kinds=("absent", "int", "float", "str", "bool"), with_return=False, name=cname)
+            body += [hops.emit(ir, "class")[1], ""]
+            syms.append(cname)
+        body.append("__all__ = %r" % syms)
+        w(os.path.join(root, m + ".py"), "\n".join(body) + "\n")
+        desc["modules"]["%s.%s" % (name, m)] = {"file": os.path.join(root, m + ".py"), "symbols": syms}
+        top_imports.insert(r.randint(0, len(top_imports)), "from %s.%s import %s" % (name, m, ", ".join(syms)))
+        top_all += syms
     w(os.path.join(root, "__init__.py"), "\n".join(top_imports) + '\n\n__author__ = "me"\n__version__ = "0.0.1"\n\n__all__ = %r\n'
       % (["__author__", "__version__"] + top_all))
     return desc
